@@ -77,4 +77,18 @@ CHECKS.update({
                 text='All multisets of 1..3 (quick) / 4 (thorough) rows with NULLs and ties for 2 (quick) / 5 (thorough) key types, 18 ORDER BY specs, 15 / 42 LIMIT-OFFSET pairs, on one batch, three batches and a 1-byte memory limit (spilled sort), plus ordinal/alias/expression keys.',
                 note='The oracle checks sortedness under the stated keys (default NULLS LAST) and the slice up to ties against the SQLite multiset.'),
 })
+CHECKS.update({
+    'C26': dict(category='exploration', engine=E1, design='3/C26',
+                technique='bounded-exhaustive enumeration of tables x window specifications, differential against SQLite',
+                text='All multisets of 1..2 (quick) / 3 (thorough) rows over (p,o,v) with NULLs plus six five-row tables with ties; ~400 window specifications: ranking, offset, value and aggregate functions, with/without PARTITION BY, ORDER BY ASC/DESC NULLS FIRST/LAST, every legal ROWS and RANGE frame over 5 bounds, two windows, a named window.',
+                note='Functions that depend on row order get a unique last ORDER BY key (ties would make the answer non-deterministic); default NULL placement in window ORDER BY is not compared.'),
+    'C27': dict(category='exploration', engine=E1, design='3/C27',
+                technique='bounded-exhaustive enumeration of tables x grouping-set lists, oracle = union of per-set GROUP BY',
+                text='All multisets of 0..2 (quick) / 3 (thorough) rows over (a,b,c) in {NULL,1}^3; every GROUPING SETS list of 1..3 sets incl. the empty and repeated sets over 1-2 (quick) / 3 (thorough) columns, ROLLUP and CUBE over 1..3 columns, with and without GROUPING().',
+                note='The oracle is the definition (UNION ALL of plain GROUP BYs with the bitmask computed from set membership), each branch run by SQLite.'),
+    'C28': dict(category='exploration', engine=E1, design='3/C28',
+                technique='bounded-exhaustive enumeration of tables x CTE statement shapes, differential against SQLite and against the inlined statement',
+                text='All multisets of 1..2 (quick) / 3 (thorough) rows; 41 shapes: 1-3 CTEs referenced 1-3 times in FROM, IN/EXISTS/scalar subqueries and UNION branches, chains, nested WITH re-using a name at every nesting position, CTE names equal to table names; production vs. every reference inlined.',
+                note='SQLite implements lexical CTE scoping; the known name-keyed scoping finding is matched against explicit one-body variants.'),
+})
 PENDING_REASON = 'check not built yet in this round (planned in DESIGN.md section 3); not claimed until it exists'
